@@ -18,7 +18,7 @@ META = {
  'C03': dict(
   faults=('fail', 'shutdown', 'restore', 'block', 'addres', 'adjust', 'rewire')),
  'C04': dict(
-  level_text='Seeded search over serial lines (0-6 stations of mixed kinds, cycle times/delays incl. zero, buffer capacities 1..inf, part budgets incl. 0, horizons, tie-break adversaries, id offsets): every arrival time recorded at every station is compared with == against an independent 30-line max-plus recurrence; the two serial examples are rebuilt from their parameters and must give their documented counts. Sampling of configurations; exact comparison per configuration.',
+  level_text='Seeded search over serial lines (0-6 stations of mixed kinds, one horizon or the same horizon in 2-3 consecutive simulate() calls, cycle times/delays incl. zero, buffer capacities 1..inf, part budgets incl. 0, horizons, tie-break adversaries, id offsets): every arrival time recorded at every station is compared with == against an independent 30-line max-plus recurrence; the two serial examples are rebuilt from their parameters and must give their documented counts. Sampling of configurations; exact comparison per configuration.',
   level_note='Trusts the reference recurrence (simv/linesim.py reference(), no library code) and the dyadic grid for exact float equality.',
   rule='linesim: one run = one serial line; indices 0-1 are examples/SingleProcessor (99) and examples/BufferExample (10079). Non-trivial = >= 3 arrival times compared; distinct = distinct dispatch-sequence digest.',
   assumptions=['cycle times, delays and horizons are dyadic; an unlimited zero-cycle source is only generated in front of a positive-time finite stage (DESIGN.md 2.5)'],
@@ -43,12 +43,13 @@ META = {
          'choice_through_pass_through_controller': 500, 'routes_checked_after_rewire': 200},
   faults=('fail', 'shutdown', 'block', 'wake')),
  'C09': dict(
-  level_text='Every op of a generated history (add/remove capacity incl. zero, negative, unknown names; single/multi reserve with zero, negative and unknown entries; full, partial, over-, negative and unknown-key release; repeated release; merge) is executed on the real ResourceManager and compared with a two-dict reference model after each op; erroneous calls are the injected faults: an op that raises must leave all observable state unchanged. Plus a complete sweep of all sequences up to length 3 (quick) / 4 (thorough) over a 17-op alphabet.',
+  level_text='Every op of a generated history (add/remove capacity incl. zero, negative, unknown names; single/multi reserve with zero, negative and unknown entries, with a request dict the caller hands over again or overwrites afterwards; full, partial, over-, negative and unknown-key release; repeated release; merge) is executed on the real ResourceManager and compared with a two-dict reference model after each op; erroneous calls are the injected faults: an op that raises must leave all observable state unchanged. Plus a complete sweep of all sequences up to length 3 (quick) / 4 (thorough) over a 17-op alphabet.',
   level_note='The property has no clock in it; it is decided as a history property op-by-op against an executable model (reference-model idiom). Trusts the model in simv/poolsim.py.',
   rule='poolsim: random histories of 3-40 ops over 3 resource names (+1 never-created) and <= 4 live reservations; systematic family over 17 ops. Non-trivial = >= 2 ops with >= 1 granted reservation or raised error; distinct = digest of the op list.',
   assumptions=['amounts are dyadic', 'a zero-amount release of a name that is not held may either be ignored or rejected, but must not half-apply'],
   real_vs_stub={'real': ['ResourceManager', 'ReservedResources', 'System/Environment (initialised, ticks run the scheduled checks)'], 'stub': []},
-  reach={'negative_request': 100, 'invalid_release': 100, 'merge': 100, 'partial_release': 100, 'repeated_release': 50, 'multi_partial_fit_refused': 50}),
+  reach={'negative_request': 100, 'invalid_release': 100, 'merge': 100, 'partial_release': 100, 'repeated_release': 50, 'multi_partial_fit_refused': 50,
+         'request_object_reused': 500, 'request_object_overwritten': 500}),
  'C10': dict(
   level_text='Registrations, direct reservations, releases and capacity changes are injected as events at generated times/priorities (piled on few instants half of the time) on a real Environment; at every availability-check event an executable scan model (registration order, feasibility re-evaluated after every callback, callbacks that reserve / do nothing / register again) predicts exactly which callbacks run; at every clock advance no feasible request may still be waiting. 12% of the runs use decimal amounts (not exactly representable): where rounding decides whether a request fits, the model makes no prediction and the manager\'s own direct reserve_resources (asked in a forked child) is the arbiter - a request called back must be reservable inside its callback, a request left waiting must not be reservable directly.',
   level_note='Pool usage/capacity are read through the public getters at the start of each check event.',
@@ -82,10 +83,10 @@ META = {
   reach={'offset': 50, 'repeat': 20, 'split': 50, 'worker_reused': 20, 'result_with_work_order_in_progress': 50,
          'result_with_paused_events': 20}),
  'C15': dict(
-  level_text='Seeded search; after every event the last recorded buffer level and resource usage/capacity are compared with the live objects, every new record must be stamped with the current time, received/produced records must equal what harness callbacks saw (id, quality, value) at that moment, record counts must equal occurrence counts, and in a quarter of the runs the exported trace file is read back and compared entry by entry with the observed dispatch sequence.',
+  level_text='Seeded search; after every event the last recorded buffer level and resource usage/capacity are compared with the live objects, every new record must be stamped with the current time, received/produced records must equal what harness callbacks saw (id, quality, value) at that moment, record counts must equal occurrence counts (parts, failures, work orders, and the state changes of action schedulers present in 40% of the models), and in a quarter of the runs the exported trace file is read back and compared entry by entry with the observed dispatch sequence.',
   level_note='HOME points at a per-process scratch directory for the trace export; occurrence counts come from harness callbacks and from executed event types.',
   rule=FLOOR_RULE + 'c15 profile (trace=True in 25% of runs). Non-trivial as C02; distinct = dispatch digest.',
-  reach={'traces_compared': 100},
+  reach={'traces_compared': 100, 'schedule_records_compared': 1000},
   faults=('fail', 'addres', 'wo')),
  'C16': dict(
   level_text='Seeded search; after every event value == initial + sum of history deltas for every registered asset and every part inside the line, history entries are stamped and totalled consistently, source cost / sink revenue / maintainer cost identities hold against values the harness read at hand-over, batches are worth the sum of their parts, net value is the sum over registered assets (assets are also created while the simulation runs, some of them with a name another asset already has).',
@@ -115,5 +116,5 @@ META = {
   level_note='Asset.initialize is wrapped to count calls; lists returned by find_assets are modified by the harness afterwards (they belong to the caller).',
   rule='lifesim: even indices are lifecycle programs (4-25 steps), odd indices late-creation twins over 11 scenarios. Non-trivial = a twin scenario or >= 2 assets created; distinct = digest of the program / observations.',
   real_vs_stub={'real': ['System, Asset and every asset class of simprocesd.model'], 'stub': ['gate predicate', 'Maintainable target', 'probe target']},
-  reach={'created_after_start': 200, 'nonempty_query': 200}),
+  reach={'created_after_start': 200, 'nonempty_query': 200, 'system_subclass': 200, 'created_inside_initialize': 100}),
 }
